@@ -343,7 +343,29 @@ def mon_c07(run, world):
                 bad.append("conditional %s completed without releasing any of its runnable children %s" % (t, live))
             for x in canc:
                 state[x] = "CANCELLED"
-    # a join whose taken branch completed must not have been cancelled by the untaken one
+    # nothing but untaken branches is cancelled when no policy cancels: a cancelled task has a cancelled (or conditional)
+    # parent; a join (terminal task) is cancelled only when every parent that is not a conditional is — in particular a
+    # join whose taken branch completed must not have been cancelled by the untaken one
+    f = world["flags"]
+    fz = world.get("fuzz")
+    cancelling = bool(f.get("enforce_deadlines")) or bool(f.get("drop_skipped_tasks")) or (fz and fz.get("p_cancel", 0) > 0) \
+        or (not fz and f.get("scheduler") not in ("EDF", "FIFO", "LSF"))
+    if not cancelling and run["status"] == "ended":
+        for t, ti in info.items():
+            if state.get(t) != "CANCELLED":
+                continue
+            ps = [p for p in ti["parents"] if p in info]
+            if len(ps) != len(ti["parents"]):
+                continue
+            plain = [p for p in ps if not info[p]["conditional"]]
+            if ti["terminal"]:
+                alive = [p for p in plain if state.get(p) != "CANCELLED"]
+                if alive:
+                    bad.append("join %s is CANCELLED although its parent(s) %s are %s (no policy cancels in this run)"
+                               % (t, alive, [state.get(p) for p in alive]))
+            elif not any(state.get(p) == "CANCELLED" for p in ps) and not any(info[p]["conditional"] for p in ps):
+                bad.append("task %s is CANCELLED although none of its parents is cancelled or conditional and no policy "
+                           "cancels in this run" % t)
     return bad
 
 
